@@ -122,6 +122,20 @@ impl Heap {
         self.free_list.push(ptr);
     }
 
+    /// Charge
+    ///
+    /// Count what a value holds outside of its vcell towards the next collection.
+    /// The digits of a bignum are shared by every copy of it: handing an existing one
+    /// on - out of a vector, into a pair - allocates nothing and costs nothing.
+    fn charge(&mut self, vcell: &VCell) {
+        if let VCell::Number(Number::BigInt(num)) = vcell {
+            if Rc::strong_count(num) > 1 {
+                return;
+            }
+        }
+        self.payload = self.payload.saturating_add(payload(vcell));
+    }
+
     /// Put
     ///
     /// Put the given cell value on the next available free vcell in the
@@ -134,7 +148,7 @@ impl Heap {
                 Some(ptr) => VCell::ptr(*ptr),
                 None => {
                     let ptr = self.alloc();
-                    self.payload = self.payload.saturating_add(payload(&vcell));
+                    self.charge(&vcell);
                     *self.heap.get_mut(ptr).expect("heap index is out of bounds") = vcell.clone();
                     self.symbol_table.insert(sym.deref().into(), ptr);
                     VCell::ptr(ptr)
@@ -142,7 +156,7 @@ impl Heap {
             },
             vcell => {
                 let ptr = self.alloc();
-                self.payload = self.payload.saturating_add(payload(vcell));
+                self.charge(vcell);
                 *self.heap.get_mut(ptr).expect("heap index is out of bounds") = vcell.clone();
                 VCell::Ptr(ptr)
             }
@@ -163,7 +177,7 @@ impl Heap {
             // a number is kept where it is used, in an environment, a vector or on the
             // stack: a bignum holds its digits all the same
             VCell::Number(_) => {
-                self.payload = self.payload.saturating_add(payload(&vcell));
+                self.charge(&vcell);
                 vcell
             }
             VCell::Bool(_) | VCell::Char(_) | VCell::Nil | VCell::Void | VCell::Undefined => vcell,
@@ -172,7 +186,7 @@ impl Heap {
                 Some(ptr) => VCell::ptr(*ptr),
                 None => {
                     let ptr = self.alloc();
-                    self.payload = self.payload.saturating_add(payload(&vcell));
+                    self.charge(&vcell);
                     *self.heap.get_mut(ptr).expect("heap index is out of bounds") = vcell.clone();
                     self.symbol_table.insert(sym.deref().into(), ptr);
                     VCell::ptr(ptr)
@@ -180,7 +194,7 @@ impl Heap {
             },
             vcell => {
                 let ptr = self.alloc();
-                self.payload = self.payload.saturating_add(payload(vcell));
+                self.charge(vcell);
                 *self.heap.get_mut(ptr).expect("heap index is out of bounds") = vcell.clone();
                 VCell::Ptr(ptr)
             }
